@@ -118,6 +118,17 @@ theorem tie_write_end (m : IoM Gen.PhyErr.RadioError Chip Unit) (r : Gen.PhyCode
   subst hv
   simp only [view, byte_toNat, id]
 
+/-- `action?; Ok(())` is the action -/
+theorem bind_pure_unit {ε σ : Type} (m : IoM ε σ Unit) : (m >>= fun _ => (pure () : IoM ε σ Unit)) = m := by
+  funext dev s log
+  rw [bind_def]
+  simp only [IoM.bind]
+  cases h : m dev s log with
+  | none => rfl
+  | some r =>
+    obtain ⟨r, s1, l1⟩ := r
+    cases r <;> rfl
+
 /-- both sides are done -/
 theorem tie_done (c : Chip) (log : List Ev) :
     view id ((pure () : IoM Gen.PhyErr.RadioError Chip Unit) chipDev c log) = denote (Prog.ret ()) c log := rfl
